@@ -9,7 +9,8 @@ import re
 from harness import core, sexp
 
 _SEQ = []
-KINDS = ['ok', 'stream', 'ctx', 'static', 'static304', 'redirect', 'notfound', 'wrongmethod', 'boom', 'debugboom', 'meta', 'gzip', 'cache',
+KINDS = ['ok', 'stream', 'ctx', 'static', 'static304', 'redirect', 'notfound', 'wrongmethod', 'boom', 'boombraces', 'ret400braces',
+         'debugboom', 'meta', 'gzip', 'cache',
          'empty', 'ret403', 'reroute', 'reroute_raise', 'unicode_header']
 METHODS = ['GET', 'HEAD', 'POST', 'OPTIONS']
 
@@ -133,13 +134,20 @@ def build_kind_app(kind, tmpdir, target_kind='plain203'):
 
     def reroute_raise():
         raise RerouteWSGI(target)
+
+    def boombraces():
+        raise KeyError({'user': 'x', 'fmt': '{0} {name!r} }{'})
+
+    def ret400braces():
+        from clastic.errors import BadRequest
+        return BadRequest('expected {"name": ...} or {0}, got }{')
     mws = [GzipMiddleware()] if kind == 'gzip' else [HTTPCacheMiddleware()] if kind == 'cache' else []
     routes = [('/ok', lambda: Response(b'hello world ' * 200, mimetype='text/plain')),
               ('/stream', lambda: Response((b'c%d' % i for i in range(5)), mimetype='text/plain')),
               ('/ctx', lambda: {'a': 1}, render_basic), ('/static', StaticApplication(tmpdir)), ('/redirect', lambda: redirect('/ok')),
               POST('/postonly', lambda: Response('p')), ('/boom', boom), ('/meta', MetaApplication()),
               ('/empty', lambda: Response(b'', status=204)), ('/ret403', lambda: Forbidden()), ('/reroute', RerouteWSGI(target)),
-              ('/reroute_raise', reroute_raise),
+              ('/reroute_raise', reroute_raise), ('/boombraces', boombraces), ('/ret400braces', ret400braces),
               ('/unicode_header', lambda: Response('x', headers={'X-Thing': 'caf\xe9'}))]
     return Application(routes, middlewares=mws, debug=(kind == 'debugboom'))
 
@@ -194,7 +202,7 @@ def impl_kind(case):
         os.utime(os.path.join(tmp, 'file.txt'), (1500000000, 1500000000))
         app = build_kind_app(kind, tmp, case.get('target', 'plain203'))
         path = {'ok': '/ok', 'stream': '/stream', 'ctx': '/ctx', 'static': '/static/file.txt', 'static304': '/static/file.txt',
-                'redirect': '/redirect', 'notfound': '/nope', 'wrongmethod': '/postonly', 'boom': '/boom', 'debugboom': '/boom',
+                'redirect': '/redirect', 'notfound': '/nope', 'wrongmethod': '/postonly', 'boom': '/boom', 'boombraces': '/boombraces', 'ret400braces': '/ret400braces', 'debugboom': '/boom',
                 'meta': '/meta/', 'gzip': '/ok', 'cache': '/ok', 'empty': '/empty', 'ret403': '/ret403', 'reroute': '/reroute',
                 'reroute_raise': '/reroute_raise', 'unicode_header': '/unicode_header'}[kind]
         headers = dict(case.get('headers') or {})
